@@ -354,7 +354,7 @@ pub fn execute_into<'tree>(
         Ok(Err(e)) => {
             let (chain, kind) = error_chain(&e);
             let display = format!("{}", e);
-            let pretty = std::panic::catch_unwind(std::panic::AssertUnwindSafe(|| {
+            let pretty_res = std::panic::catch_unwind(std::panic::AssertUnwindSafe(|| {
                 format!(
                     "{}",
                     e.display_pretty(
@@ -364,8 +364,9 @@ pub fn execute_into<'tree>(
                         dsl,
                     )
                 )
-            }))
-            .is_ok();
+            }));
+            let pretty = pretty_res.is_ok();
+            let pretty_text = pretty_res.unwrap_or_default();
             let status = if matches!(e, ExecutionError::Cancelled(_)) {
                 "cancelled"
             } else if kind == "Cancelled" {
@@ -373,7 +374,7 @@ pub fn execute_into<'tree>(
             } else {
                 "err"
             };
-            json!({"status": status, "err": {"kind": kind, "chain": chain, "display": display, "pretty_ok": pretty},
+            json!({"status": status, "err": {"kind": kind, "chain": chain, "display": display, "pretty_ok": pretty, "pretty": pretty_text},
                    "graph": project_graph(graph, src),
                    "polls": polls, "truncated": truncated, "polls_after_fire": flag.polls_after_fire.get()})
         }
